@@ -24,4 +24,82 @@ theorem propagate_flags (n : Node) : (propagate n).flags = n.flags := by
       | some kw => Node.comp f k (applyKwList kw cs)).flags = f
     cases childKw f k <;> rfl
 
+/-! ### `propagate` hands an unsafe mark down to every direct child -/
+
+/-- `StreamNode` (hands nothing down) -/
+def Node.isStream : Node → Bool
+  | .comp _ .stream _ => true
+  | _ => false
+
+theorem eSafe_of_iSafe_false {f : Flags} (h : f.iSafe = some false) : eSafe f = false := by
+  simp [eSafe, h]
+
+theorem updFlags_iSafe_false {kw : ChildKw} (h : kw.iSafe = some false) (f : Flags) :
+    (updFlags kw f).iSafe = some false := by
+  simp only [updFlags, h]; split <;> rfl
+
+theorem applyKw_iSafe_false {kw : ChildKw} (h : kw.iSafe = some false) (c : Node) :
+    (applyKw kw c).flags.iSafe = some false := by
+  cases c with
+  | leaf f k => simp only [applyKw, Node.flags]; exact updFlags_iSafe_false h f
+  | comp f k cs =>
+    simp only [applyKw]
+    by_cases hch : flagsChanged kw f = true
+    · simp only [hch, if_true]
+      have : ∀ n : Node, n.flags = updFlags kw f → n.flags.iSafe = some false :=
+        fun n e => by rw [e]; exact updFlags_iSafe_false h f
+      cases childKw (updFlags kw f) k <;> exact this _ rfl
+    · have hch' : flagsChanged kw f = false := by simpa using hch
+      simp only [hch', Bool.false_eq_true, if_false, Node.flags]
+      simp only [flagsChanged, Bool.or_eq_false_iff, Bool.and_eq_false_iff, bne_eq_false_iff_eq] at hch'
+      rcases hch'.2 with h2 | h2
+      · rw [h2]; exact h
+      · exact h2
+
+theorem applyKwList_mem {kw : ChildKw} {key : Key} {c : Node} : ∀ {cs : List (Key × Node)},
+    (key, c) ∈ applyKwList kw cs → ∃ c0, (key, c0) ∈ cs ∧ c = applyKw kw c0
+  | [], h => by simp [applyKwList] at h
+  | (k', c') :: rest, h => by
+    simp only [applyKwList, List.mem_cons, Prod.mk.injEq] at h
+    rcases h with ⟨rfl, rfl⟩ | h
+    · exact ⟨c', by simp, rfl⟩
+    · obtain ⟨c0, hm, e⟩ := applyKwList_mem h
+      exact ⟨c0, List.mem_cons_of_mem _ hm, e⟩
+
+theorem childKw_iSafe {f : Flags} {k : CompKind} {kw : ChildKw} (h : childKw f k = some kw) :
+    kw.iSafe = f.safe.or f.iSafe := by
+  cases k <;> simp only [childKw, Option.some.injEq] at h <;> first | (subst h; rfl) | cases h
+
+theorem childKw_isSome_of_not_stream {f : Flags} {k : CompKind} {cs : List (Key × Node)}
+    (h : (Node.comp f k cs).isStream = false) : ∃ kw, childKw f k = some kw := by
+  cases k <;> first | exact ⟨_, rfl⟩ | simp [Node.isStream] at h
+
+/-- after `_propagate_implicit_values` on a node that hands down `implicit_safe = False`, every
+    direct child carries `_implicit_safe = False` -/
+theorem propagate_children_unsafe (n : Node) (hst : n.isStream = false)
+    (h : n.flags.safe.or n.flags.iSafe = some false) :
+    ∀ key c, (key, c) ∈ (propagate n).children → c.flags.iSafe = some false := by
+  cases n with
+  | leaf f k => intro key c hm; simp [propagate, Node.children] at hm
+  | comp f k cs =>
+    obtain ⟨kw, hk⟩ := childKw_isSome_of_not_stream hst
+    intro key c hm
+    simp only [propagate, hk, Node.children] at hm
+    obtain ⟨c0, _, rfl⟩ := applyKwList_mem hm
+    exact applyKw_iSafe_false (by rw [childKw_iSafe hk]; exact h) c0
+
+theorem propagate_isStream (n : Node) : (propagate n).isStream = n.isStream := by
+  cases n with
+  | leaf f k => rfl
+  | comp f k cs =>
+    simp only [propagate]
+    cases childKw f k <;> cases k <;> rfl
+
+theorem mergeSafe_safe_false {w l : Flags} (h : w.safe = some false ∨ l.safe = some false) :
+    (mergeSafe w l).safe = some false := by
+  simp only [mergeSafe]
+  rcases h with h | h
+  · rw [h]; cases l.safe <;> simp
+  · rw [h]; simp
+
 end AY
